@@ -317,3 +317,98 @@ _t(
     accepted=("tq2", "ta.inner", "tq"),
 )
 T["T14"].modules["tq.zclash"] = {"a": clash_source(T["T14"])}
+
+# ---------------------------------------------------------------- T9: dds.load placements
+_T9 = '''
+V = 0
+
+
+@dds.data_function("/t9/p")
+def prod():
+    tick.hit("prod")
+    return ("p", V)
+
+
+def g():
+    tick.hit("g")
+    return ("g", V)
+
+
+def helper():
+    return ("hl", dds.load("/t9/p"))
+
+
+def reader():
+    tick.hit("reader")
+    return ("r", dds.load("/t9/p"))
+
+
+def reader_h():
+    tick.hit("reader_h")
+    return ("rh", helper())
+
+
+def reader_k():
+    tick.hit("reader_k")
+    return ("rk", dds.load("/t9/k"))
+
+
+def root_a():
+    # producer (data function) earlier in the same evaluation, load inside a kept function
+    prod()
+    return dds.keep("/t9/r", reader)
+
+
+def root_b():
+    # load at the top level of the evaluated function
+    prod()
+    x = dds.load("/t9/p")
+    return ("root_b", x)
+
+
+def root_c():
+    # load in a helper of a kept function
+    prod()
+    return dds.keep("/t9/rh", reader_h)
+
+
+def root_d():
+    # producer is a keep call
+    dds.keep("/t9/k", g)
+    return dds.keep("/t9/rk", reader_k)
+
+
+def root_e():
+    # producer ran in an EARLIER evaluation; this evaluation only reads
+    return dds.keep("/t9/r", reader)
+
+
+def bad_before():
+    # reads before producing in the same evaluation
+    x = dds.keep("/t9/r", reader)
+    prod()
+    return x
+
+
+def bad_inline():
+    x = dds.load("/t9/p")
+    prod()
+    return ("bad", x)
+
+
+def bad_never():
+    return dds.keep("/t9/rn", reader_never)
+
+
+def reader_never():
+    tick.hit("reader_never")
+    return ("rn", dds.load("/t9/never"))
+'''
+_t(
+    "T9",
+    [PKG, ("tq.m1", {"a": HEAD + _T9, "b": HEAD + _T9.replace('return ("p", V)', 'return ("p2", V)')})],
+    leaves=[("tq.m1", "V", "int", True)],
+    entry=("tq.m1", "root_a"),
+    kept=["/t9/p", "/t9/r"],
+)
+T["T9"].modules["tq.zclash"] = {"a": clash_source(T["T9"])}
